@@ -19,7 +19,7 @@ import time
 
 VERIF = os.path.dirname(os.path.dirname(os.path.abspath(__file__)))
 SEEDED = os.path.join(VERIF, "seeded")
-SCRATCH = "/dev/shm/mutcheck-wt"
+SCRATCH = os.environ.get("MUT_SCRATCH", "/dev/shm/mutcheck-wt")
 PYTEST = ["/venv/bin/python", "-m", "pytest", "-q", "-p", "no:cacheprovider", "--timeout=900", "--continue-on-collection-errors"]
 
 
